@@ -5,7 +5,7 @@ from __future__ import annotations
 import ast
 
 from ..context import Ctx
-from ..dep import Deps
+from ..dep import Deps, reads
 from ..loader import AnalysisError, norm, own_nodes
 from ..pairing import contains_call, method_call
 from ..report import RuleResult
@@ -166,23 +166,33 @@ def check(ctx: Ctx) -> list[RuleResult]:
     out.append(r2)
 
     # ---- R3 ---------------------------------------------------------------------------
+    # Roles are recovered by dataflow, not by statement text: the *stamp* is the shared (nonlocal) variable written from the clock,
+    # the *level* the shared variable whose refill depends on the stamp; the *debit* is a write of the level that depends on the
+    # frame size; the *write* is the await of the decorated function.
     r3 = RuleResult("R3", "debit on all exits; order refill -> test -> wait -> write -> debit", "in limit_duty_cycle.wrapper", min_instances=4)
     w = repo.func(f"{T}.limit_duty_cycle.decorator.wrapper")
     cfgw = ctx.cfg(w, pol)
-    def find(pred):
-        return [x for x in cfgw.nodes if x.ast is not None and x.kind in ("stmt", "test") and pred(norm(x.ast))]
-    refill = find(lambda t: t.startswith("bits_in_bucket = min(bits_in_bucket +"))
-    test = find(lambda t: t == "bits_in_bucket < rf_frame_size")
-    wait = find(lambda t: t.startswith("await asyncio.sleep((rf_frame_size - bits_in_bucket)"))
-    write = find(lambda t: t.startswith("await fnc(self, frame"))
-    debit = find(lambda t: t == "bits_in_bucket -= rf_frame_size")
-    if not (refill and test and wait and write and debit):
-        raise AnalysisError("limit_duty_cycle.wrapper: refill/test/wait/write/debit statements not found")
+    bm = BucketModel(w.node, {n2 for st in own_nodes(w.node) if isinstance(st, ast.Nonlocal) for n2 in st.names})
+    if bm.level is None or bm.stamp is None:
+        raise AnalysisError(f"limit_duty_cycle.wrapper: bucket level / refill stamp not identified among {sorted(bm.shared)}")
+    dw = Deps(w)
+    size_vars = {v for v in dw.trans if "frame" in dw.of_var(v) and v not in bm.shared and v != "frame"}
+
+    def stmt_nodes(pred):
+        return [x for x in cfgw.nodes if x.ast is not None and x.kind == "stmt" and pred(x.ast)]
+
+    refill = stmt_nodes(lambda a: bm.is_refill(a))
+    write = stmt_nodes(lambda a: isinstance(a, ast.Expr) and isinstance(a.value, ast.Await) and isinstance(a.value.value, ast.Call) and norm(a.value.value.func) == "fnc")
+    debit = stmt_nodes(lambda a: bm.writes(a, bm.level) and not bm.is_refill(a) and bool(reads(a.value) & size_vars))
+    test = [x for x in cfgw.nodes if x.kind == "test" and isinstance(x.ast, ast.Compare) and bool(reads(x.ast) & size_vars) and bool((reads(x.ast) & {bm.level}) or any(bm.level in dw.of_var(v) for v in reads(x.ast)))]
+    wait = stmt_nodes(lambda a: isinstance(a, ast.Expr) and isinstance(a.value, ast.Await) and "sleep" in norm(a.value.value) and bool(reads(a.value) & size_vars))
+    if not (refill and test and wait and write):
+        raise AnalysisError("limit_duty_cycle.wrapper: refill/test/wait/write statements not identified")
     dom = cfgw.dominators()
     r3.instances += 1
     r3.nontrivial += 1
-    if refill[0].id in dom[test[0].id] and test[0].id in dom[write[0].id] and cfgw.edge_dominates(test[0], "true", wait[0]) and all(wait[0].id not in cfgw.reachable_from(wr.id) or True for wr in write):
-        r3.ok({"order": "refill dominates the sufficiency test, which dominates the write; the wait is on its true edge"})
+    if refill[0].id in dom[test[0].id] and test[0].id in dom[write[0].id] and cfgw.edge_dominates(test[0], "true", wait[0]):
+        r3.ok({"order": "refill dominates the sufficiency test, which dominates the write; the wait is on its true edge", "level": bm.level, "stamp": bm.stamp})
     else:
         r3.fail(f"{w.short}:order", w.loc(), "the limiter no longer refills before testing, or tests before writing")
     r3.instances += 1
@@ -194,22 +204,69 @@ def check(ctx: Ctx) -> list[RuleResult]:
         r3.fail(f"{w.short}:wait-after-write", w.loc(), "the wait for the bucket to refill no longer precedes the write")
     r3.instances += 1
     r3.nontrivial += 1
+    debit_ids = {d0.id for d0 in debit}
     def passing(x):
-        return x.ast is not None and x.kind == "stmt" and norm(x.ast) == "bits_in_bucket -= rf_frame_size"
+        return x.id in debit_ids
     leaks = cfgw.exits_reachable_without(write[0].id, passing, skip_start_exc=False)
-    if leaks:
-        ex, path, labs = leaks[0]
-        r3.fail(f"{w.short}:debit-skipped:{'exceptional' if ex.kind == 'raise_exit' else 'normal'}-exit", w.loc(write[0].ast), "a write can complete or fail without the frame being debited from the bit bucket", [f"{p.kind}@{p.line} --{lab}-->" for p, lab in zip(path, labs[1:] + [""])][:8])
+    if not debit or leaks:
+        ex, path, labs = leaks[0] if leaks else (None, [], [])
+        r3.fail(f"{w.short}:debit-skipped:{'exceptional' if ex is not None and ex.kind == 'raise_exit' else 'normal'}-exit", w.loc(write[0].ast), "a write can complete or fail without the frame being debited from the bit bucket", [f"{p.kind}@{p.line} --{lab}-->" for p, lab in zip(path, labs[1:] + [""])][:8])
     else:
-        r3.ok({"debit": "post-dominates the write on normal and exceptional exits (finally)"})
+        r3.ok({"debit": f"`{norm(debit[0].ast)}` post-dominates the write on normal and exceptional exits (finally)"})
     r3.instances += 1
     r3.nontrivial += 1
-    size = [n for n in own_nodes(w.node) if isinstance(n, ast.Assign) and norm(n.targets[0]) == "rf_frame_size"]
+    size = [n for n in own_nodes(w.node) if isinstance(n, ast.Assign) and isinstance(n.targets[0], ast.Name) and n.targets[0].id in size_vars and "frame" in reads(n.value)]
     if len(size) == 1 and "len(frame[46:])" in norm(size[0].value):
         r3.ok({"rf_frame_size": norm(size[0].value)})
     else:
-        r3.fail(f"{w.short}:frame-size", w.loc(), f"rf_frame_size no longer depends on the payload length: {[norm(s.value) for s in size]}")
+        r3.fail(f"{w.short}:frame-size", w.loc(), f"the frame size no longer depends on the payload length: {[norm(s0.value) for s0 in size]}")
     out.append(r3)
+
+    # ---- R6 ---------------------------------------------------------------------------
+    r6 = RuleResult("R6", "bucket updates are atomic and the refill stamp always advances", "no write of a shared bucket variable from a snapshot taken before an await; every refill is paired with a stamp update on all paths", min_instances=4)
+    mwf = repo.func(f"{T}.MqttTransport.write_frame")
+    shared_m = set()
+    for n in own_nodes(mwf.node):
+        if isinstance(n, (ast.Assign, ast.AugAssign, ast.AnnAssign)):
+            for t in (n.targets if isinstance(n, ast.Assign) else [n.target]):
+                for el in (t.elts if isinstance(t, ast.Tuple) else [t]):
+                    if isinstance(el, ast.Attribute) and isinstance(el.value, ast.Name) and el.value.id == "self":
+                        shared_m.add(norm(el))
+    bmm = BucketModel(mwf.node, shared_m)
+    if bmm.level is None or bmm.stamp is None:
+        raise AnalysisError(f"MqttTransport.write_frame: token level / refill stamp not identified among {sorted(shared_m)}")
+    for fn, model, cfgx in ((w, bm, ctx.plain_cfg(w)), (mwf, bmm, ctx.plain_cfg(mwf))):
+        # (a) atomicity across suspension points
+        r6.instances += 1
+        r6.nontrivial += 1
+        stale = model.stale_writes()
+        if stale:
+            st0, var, e_read, e_now = stale[0]
+            r6.fail(f"{fn.short}:stale-write:{var}", fn.loc(st0), f"`{norm(st0)[:80]}` writes {var} from a value read {e_now - e_read} await(s) earlier: a concurrent caller's update made during the wait/write is overwritten (lost debit)")
+        else:
+            r6.ok({"function": fn.short, "shared": sorted(model.shared), "stale_writes": 0, "awaits": model.n_awaits})
+        # (b) every refill is paired with an update of the stamp it was computed from
+        r6.instances += 1
+        r6.nontrivial += 1
+        refills = [x for x in cfgx.nodes if x.ast is not None and x.kind == "stmt" and model.is_refill(x.ast)]
+        stamps = {x.id for x in cfgx.nodes if x.ast is not None and x.kind == "stmt" and model.is_stamp_update(x.ast)}
+        if not refills:
+            raise AnalysisError(f"{fn.short}: no refill statement identified")
+        domx = cfgx.dominators()
+        bad = None
+        for rf in refills:
+            if stamps & domx[rf.id]:
+                continue
+            lk = cfgx.exits_reachable_without(rf.id, lambda x: x.id in stamps, skip_start_exc=True)
+            if lk:
+                bad = (rf, lk[0])
+                break
+        if bad:
+            rf, (ex, path, labs) = bad
+            r6.fail(f"{fn.short}:refill-without-stamp", fn.loc(rf.ast), f"after the refill `{norm(rf.ast)[:70]}` an exit is reachable without {model.stamp} having been advanced: the same elapsed time is credited again on the next call", [f"exit at line {path[-1].line if path else '?'}"])
+        else:
+            r6.ok({"function": fn.short, "refill": norm(refills[0].ast)[:70], "stamp": model.stamp, "paired_on_all_paths": True})
+    out.append(r6)
 
     # ---- R4 ---------------------------------------------------------------------------
     r4 = RuleResult("R4", "MQTT drops rather than queues", "the over-budget branch returns before the debit and the write; nothing accumulates frames", min_instances=2)
@@ -262,3 +319,158 @@ def check(ctx: Ctx) -> list[RuleResult]:
         raise AnalysisError("write path call sites not found")
     out.append(r5)
     return out
+
+
+CLOCKS = ("perf_counter()", "time.perf_counter()", "time.monotonic()", "monotonic()", "time.time()", "time()")
+
+
+class BucketModel:
+    """Roles and flow facts of a token/bit-bucket limiter function, recovered by dataflow.
+
+    shared: the variables that persist between calls (nonlocal names / self.attrs written here).
+    stamp:  the shared variable written from the clock.     level: the shared variable whose refill depends on the stamp.
+    """
+
+    def __init__(self, fn: ast.AST, shared: set[str]) -> None:
+        self.fn = fn
+        self.shared = set(shared)
+        self.n_awaits = 0
+        self.clock_locals: set[str] = set()
+        for n in own_nodes(fn):
+            if isinstance(n, ast.Assign) and len(n.targets) == 1 and isinstance(n.targets[0], ast.Name) and norm(n.value) in CLOCKS:
+                self.clock_locals.add(n.targets[0].id)
+        # flow-insensitive local deps: local -> shared vars / clock it derives from
+        self.ldeps: dict[str, set[str]] = {}
+        for _ in range(4):
+            for n in own_nodes(fn):
+                for tgt, val in self._assignments(n):
+                    if isinstance(tgt, ast.Name) and tgt.id not in self.shared:
+                        self.ldeps.setdefault(tgt.id, set()).update(self._deps(val))
+        self.stamp = next((v for v in sorted(self.shared) if any(self.writes(n, v) and self._is_clock(self._value_for(n, v)) for n in own_nodes(fn))), None)
+        self.level = None
+        if self.stamp is not None:
+            self.level = next((v for v in sorted(self.shared) if v != self.stamp and any(self.writes(n, v) and self.stamp in self._deps(self._value_for(n, v)) for n in own_nodes(fn))), None)
+
+    @staticmethod
+    def _assignments(n: ast.AST):
+        if isinstance(n, ast.Assign):
+            for t in n.targets:
+                if isinstance(t, ast.Tuple) and isinstance(n.value, ast.Tuple) and len(t.elts) == len(n.value.elts):
+                    yield from zip(t.elts, n.value.elts)
+                else:
+                    yield t, n.value
+        elif isinstance(n, ast.AnnAssign) and n.value is not None:
+            yield n.target, n.value
+        elif isinstance(n, ast.AugAssign):
+            yield n.target, ast.BinOp(left=n.target, op=n.op, right=n.value)
+
+    def _is_clock(self, v: ast.AST | None) -> bool:
+        return v is not None and (norm(v) in CLOCKS or (isinstance(v, ast.Name) and v.id in self.clock_locals))
+
+    def _deps(self, e: ast.AST | None) -> set[str]:
+        out: set[str] = set()
+        if e is None:
+            return out
+        for r in reads(e):
+            if r in self.shared:
+                out.add(r)
+            out |= self.ldeps.get(r, set())
+        return out
+
+    def writes(self, n: ast.AST, var: str | None) -> bool:
+        return var is not None and any(norm(t) == var for t, _v in self._assignments(n))
+
+    def _value_for(self, n: ast.AST, var: str) -> ast.AST | None:
+        for t, v in self._assignments(n):
+            if norm(t) == var:
+                return v
+        return None
+
+    def is_refill(self, n: ast.AST) -> bool:
+        """A write of the level whose value depends on the stamp (elapsed time) - directly or through locals."""
+        return self.writes(n, self.level) and self.stamp in self._deps(self._value_for(n, self.level))  # type: ignore[arg-type]
+
+    def is_stamp_update(self, n: ast.AST) -> bool:
+        return self.writes(n, self.stamp) and self._is_clock(self._value_for(n, self.stamp))  # type: ignore[arg-type]
+
+    # -- flow-sensitive: snapshots of shared variables vs suspension points -----------------------
+
+    def stale_writes(self) -> "list[tuple[ast.AST, str, int, int]]":
+        """[(statement, shared var, epoch of the snapshot, epoch of the write)]: a shared variable assigned from a value of
+        *itself* that was read before an intervening await (an augmented assignment re-reads it, so it is atomic)."""
+        found: list[tuple[ast.AST, str, int, int]] = []
+        self.n_awaits = 0
+
+        def has_await(n: ast.AST) -> int:
+            return sum(1 for x in ast.walk(n) if isinstance(x, ast.Await))
+
+        def snap(e: ast.AST, st: dict) -> set[tuple[str, int]]:
+            out: set[tuple[str, int]] = set()
+            for r in reads(e):
+                if r in self.shared:
+                    out.add((r, st["epoch"]))
+                out |= st["locals"].get(r, set())
+            return out
+
+        def merge(a: dict, b: dict) -> dict:
+            loc = {k: set(a["locals"].get(k, set())) | set(b["locals"].get(k, set())) for k in set(a["locals"]) | set(b["locals"])}
+            return {"epoch": max(a["epoch"], b["epoch"]), "locals": loc}
+
+        def copy(st: dict) -> dict:
+            return {"epoch": st["epoch"], "locals": {k: set(v) for k, v in st["locals"].items()}}
+
+        def simple(n: ast.stmt, st: dict) -> None:
+            pairs = list(self._assignments(n))
+            deps = [(t, snap(v, st)) for t, v in pairs]  # the right-hand sides are evaluated first
+            k = has_await(n)
+            if k:
+                self.n_awaits += k
+                st["epoch"] += k
+            for t, d in deps:
+                name = norm(t)
+                if name in self.shared:
+                    for var, e in d:
+                        if var == name and e < st["epoch"] and not isinstance(n, ast.AugAssign):
+                            found.append((n, name, e, st["epoch"]))
+                        elif var == name and isinstance(n, ast.AugAssign) and e < st["epoch"] - k:
+                            found.append((n, name, e, st["epoch"]))
+                elif isinstance(t, ast.Name):
+                    st["locals"][t.id] = d
+
+        def walk(body: list[ast.stmt], st: dict) -> dict:
+            for n in body:
+                if isinstance(n, ast.If):
+                    k = has_await(n.test)
+                    st["epoch"] += k
+                    a, b = walk(n.body, copy(st)), walk(n.orelse, copy(st))
+                    st = merge(a, b)
+                elif isinstance(n, (ast.For, ast.AsyncFor, ast.While)):
+                    st = merge(st, walk(n.body, copy(st)))
+                    st = merge(st, walk(n.body, copy(st)))
+                    st = walk(n.orelse, st)
+                elif isinstance(n, ast.Try):
+                    b = walk(n.body, copy(st))
+                    alts = [b] + [walk(h.body, merge(copy(st), copy(b))) for h in n.handlers]
+                    cur = alts[0]
+                    for a in alts[1:]:
+                        cur = merge(cur, a)
+                    cur = walk(n.orelse, cur)
+                    st = walk(n.finalbody, merge(cur, merge(copy(st), copy(b))))
+                elif isinstance(n, (ast.With, ast.AsyncWith)):
+                    st["epoch"] += sum(has_await(i.context_expr) for i in n.items) + (1 if isinstance(n, ast.AsyncWith) else 0)
+                    st = walk(n.body, st)
+                elif isinstance(n, (ast.FunctionDef, ast.AsyncFunctionDef, ast.ClassDef)):
+                    continue
+                else:
+                    simple(n, st)
+            return st
+
+        walk(list(self.fn.body), {"epoch": 0, "locals": {}})  # type: ignore[attr-defined]
+        # de-duplicate (loops are walked twice)
+        seen = set()
+        out = []
+        for f0 in found:
+            if id(f0[0]) not in seen:
+                seen.add(id(f0[0]))
+                out.append(f0)
+        return out
